@@ -192,7 +192,9 @@ async fn run_case(c: &Case, ctx: &mut WorkerCtx) -> Outcome {
         if c.idle_timeout && !matches!(step, Step::IdleOut(_)) {
             // a client that has been idle in its transaction for more than half the timeout may be ended by the pooler at any
             // moment: the model cannot say what it holds, so the history stops here (nothing is judged after this point)
-            if (0..n).any(|j| matches!(st[j], St::InTxn(_)) && idle_since[j].elapsed() > Duration::from_millis(IDLE_MS / 2)) {
+            // (pgcat applies the timeout to every client that holds a server and sends nothing - in session mode also to one
+            // that is not inside a transaction)
+            if (0..n).any(|j| matches!(st[j], St::InTxn(_) | St::Owns(_)) && idle_since[j].elapsed() > Duration::from_millis(IDLE_MS / 2)) {
                 o.label("stopped:idle-in-transaction-too-long");
                 break 'steps;
             }
@@ -234,6 +236,7 @@ async fn run_case(c: &Case, ctx: &mut WorkerCtx) -> Outcome {
                         idle_since[i] = std::time::Instant::now();
                         st[i] = St::InTxn(conn);
                     } else if c.session_mode {
+                        idle_since[i] = std::time::Instant::now();
                         st[i] = St::Owns(conn);
                     } else {
                         if !barrier(&mut clis[i]).await {
@@ -279,6 +282,7 @@ async fn run_case(c: &Case, ctx: &mut WorkerCtx) -> Outcome {
                         break 'steps;
                     }
                     if c.session_mode {
+                        idle_since[i] = std::time::Instant::now();
                         st[i] = St::Owns(conn);
                     } else {
                         if !barrier(&mut clis[i]).await {
@@ -313,8 +317,9 @@ async fn run_case(c: &Case, ctx: &mut WorkerCtx) -> Outcome {
                 if !c.idle_timeout || !matches!(st[i], St::InTxn(_)) {
                     continue;
                 }
-                // other clients idle in a transaction would time out as well: only when this is the only one
-                if (0..n).any(|j| j != i && matches!(st[j], St::InTxn(_))) {
+                // other clients idle in a transaction (or, in session mode, idle on a server of their own) would time out as
+                // well: only when this is the only one
+                if (0..n).any(|j| j != i && matches!(st[j], St::InTxn(_) | St::Owns(_))) {
                     continue;
                 }
                 let (msgs, e) = clis[i].read_until_ready(Duration::from_millis(IDLE_MS * 4)).await;
